@@ -183,7 +183,9 @@ func (f *Formatter) formatFile(filename string) FileFormatterResult {
 	}
 
 	result.Formatted = formatted
-	result.Changed = (original != formatted)
+	// `format` prints its result with a final newline, so a file that differs from the
+	// formatted text only by trailing newlines is already formatted.
+	result.Changed = strings.TrimRight(original, "\n") != strings.TrimRight(formatted, "\n")
 	return result
 }
 
